@@ -235,7 +235,26 @@ def encTrace (same : Bool) (ops : List Op) (names : Option NamesIn) (rs : List (
   Json.mkObj [("ops", Json.arr ((indexed 0 rs).map (encOpRes same ops names)).toArray),
     ("fatal", if rs.any (fun r => isFuel r.1.v) then Json.str "fuel" else Json.null)]
 
-/-- K-dottext request: the DOT lexer and parser of `DotSyntax.lean` on a text the library wrote -/
+def encTok : DotSyntax.Tok → Json
+  | .bare s => Json.mkObj [("b", Json.str (String.ofList s))]
+  | .quoted s => Json.mkObj [("q", Json.str (String.ofList s))]
+  | .html s => Json.mkObj [("h", Json.str (String.ofList s))]
+  | _ => Json.null
+
+def encAttrs (as : List DotSyntax.Attr) : Json :=
+  Json.arr (as.map fun a => Json.arr #[encTok a.key, encTok a.val]).toArray
+
+/-- the statements of a parsed document; `fuel` bounds the nesting of subgraphs -/
+def encStmts : Nat → List DotSyntax.Stmt → Json
+  | 0, _ => Json.null
+  | fuel + 1, ss => Json.arr (ss.map fun s => match s with
+      | .node a as => Json.mkObj [("node", encTok a), ("attrs", encAttrs as)]
+      | .edge a b as => Json.mkObj [("edge", Json.arr #[encTok a, encTok b]), ("attrs", encAttrs as)]
+      | .attrs kw as => Json.mkObj [("set", Json.str (String.ofList kw)), ("attrs", encAttrs as)]
+      | .assign k v => Json.mkObj [("assign", Json.arr #[encTok k, encTok v])]
+      | .subgraph n body => Json.mkObj [("subgraph", Json.str (String.ofList n)), ("body", encStmts fuel body)]).toArray
+
+/-- K-dottext request: the DOT lexer and parser of `DotSyntax.lean` on a text -/
 def runDotParse (j : Json) : R Json := do
   let text ← jstr j "text"
   match DotSyntax.lexDot text.toList with
@@ -243,7 +262,7 @@ def runDotParse (j : Json) : R Json := do
   | some ts =>
     match DotSyntax.parseDot ts with
     | none => pure (Json.mkObj [("lex", true), ("parse", false), ("stmts", jn 0)])
-    | some ss => pure (Json.mkObj [("lex", true), ("parse", true), ("stmts", jn ss.length)])
+    | some ss => pure (Json.mkObj [("lex", true), ("parse", true), ("stmts", jn ss.length), ("ast", encStmts 8 ss)])
 
 /-- K-graph request -/
 def runGraph (j : Json) : R Json := do
